@@ -266,3 +266,24 @@ def sanitizer_key(err):
         if m:
             return kind, "%s:%s" % (m.group(1), "-".join(scrub(m.group(2)).split()[:6]))
     return kind, scrub(head)[-60:]
+
+
+def death_hazards(log):
+    """Situations of a (reference) log in which the kernel work done on behalf of dying actors matters: dates at which >= 2 actors
+    die while somebody returns from join() ('joiners') or a peer of a pending communication is told that it failed
+    ('pending-comms'). Returns '' or 'joiners', 'pending-comms', 'joiners+pending-comms'."""
+    by = {}
+    for line in log:
+        t = line.split()
+        if len(t) < 4:
+            continue
+        d = by.setdefault(t[0], {"E": set(), "join": False, "nf": False})
+        if t[3] == "E":
+            d["E"].add(t[1])
+        elif t[3] == "R" and len(t) > 4 and t[4] == "join":
+            d["join"] = True
+        elif (t[3] == "X" and t[-1] == "NetworkFailure") or t[3] == "F":
+            d["nf"] = True
+    j = any(len(d["E"]) >= 2 and d["join"] for d in by.values())
+    c = any(len(d["E"]) >= 2 and d["nf"] for d in by.values())
+    return "+".join(x for x, on in (("joiners", j), ("pending-comms", c)) if on)
